@@ -218,6 +218,51 @@ def run(rep, tier, seed):
                                 field_descriptors=(rules[0].field_descriptors if rnd.random() < 0.5 and rules[0].nature is RuleNature.COMPRESSION else []))
             o_ = impl_outcome(lambda: canon_json(fr.__json__()))
             b.add('json:rule:fragmentation', 'J rule ' + ' '.join(rule_tokens(fr)), (o_[0], o_[1]) if o_[0] == 'EXC' else ('OK', (o_[1], True, True)), parse_model, None, dict(layer='json', op='rule:fragmentation'), key=('frag', i))
+        # "compares equal to the original" has content only if different objects compare unequal: every attribute of a reloaded
+        # descriptor is changed in turn; foreign objects never compare equal; equal packet descriptors hash alike
+        def neq_checks():
+            bad = []
+            for r in rules:
+                if r.nature is not RuleNature.COMPRESSION or not r.field_descriptors:
+                    continue
+                rf = rnd.choice(r.field_descriptors)
+                y = RuleFieldDescriptor.from_json(rf.json())
+                alts = [('length', rf.length + 1), ('position', rf.position + 1), ('direction', DI.UP if rf.direction != DI.UP else DI.DOWN),
+                        ('matching_operator', MO.IGNORE if rf.matching_operator != MO.IGNORE else MO.EQUAL),
+                        ('compression_decompression_action', CDA.NOT_SENT if rf.compression_decompression_action != CDA.NOT_SENT else CDA.VALUE_SENT),
+                        ('target_value', mk(randbits(rnd, 9) + '1') if isinstance(rf.target_value, Buffer) else mkmap({mk('1'): mk('0')}) if given_items(rf.target_value) != [] and len(given_items(rf.target_value)) != 1 else mk('1'))]
+                for attr, val in alts:
+                    z = RuleFieldDescriptor.from_json(rf.json())
+                    if attr == 'target_value' and isinstance(rf.target_value, Buffer) and rf.target_value == val:
+                        continue
+                    setattr(z, attr, val)
+                    if z == rf or rf == z:
+                        bad.append('rule field descriptors that differ in %s compare equal' % attr)
+                if y == 'x' or y == 7 or y == None or rf.target_value == 'x' or (isinstance(rf.target_value, MatchMapping) and (rf.target_value == {} or rf.target_value == given_items(rf.target_value))):  # noqa: E711
+                    bad.append('a rule field descriptor or its target value compares equal to an object of another type')
+                r2 = RuleDescriptor.from_json(r.json())
+                r2.field_descriptors = r2.field_descriptors[:-1]
+                if r2 == r:
+                    bad.append('rules with different descriptor lists compare equal')
+            pd2 = PacketDescriptor.from_json(pd.json())
+            if hash(pd2) != hash(pd) or pd2 != pd or pd == 'x':
+                bad.append('a reloaded packet descriptor hashes differently / is unequal / equals a string')
+            pd3 = PacketDescriptor(direction=pd.direction, fields=pd.fields[:-1], payload=pd.payload, raw=pd.raw)
+            if len(pd.fields) and pd3 == pd:
+                bad.append('packet descriptors with different field lists compare equal')
+            return bad
+        o_ = impl_outcome(neq_checks)
+        rep.count('inequality', key=('neq', i))
+        rep.oracle_evals += 1
+        if o_ != ('OK', []):
+            rep.violation('property', 'equality of descriptors: %s' % (o_[1][0] if o_[0] == 'OK' else 'raised ' + o_[1]), dict(layer='json', op='inequality', context_packet=pkt.hex(), stack=stack))
+        if i % 10 == 4:
+            # the JSON text of a rule of fragmentation nature (written by another implementation): loading it is refused, not mis-read
+            txt = json.dumps({'id': mk(randbits(rnd, 5)).__json__(), 'nature': str.__str__(RuleNature.FRAGMENTATION.value), 'field_descriptors': []})
+            o_ = impl_outcome(lambda: RuleDescriptor.from_json(txt))
+            rep.count('json:rule:fragmentation-load', key=('fragload', i))
+            if o_ != ('EXC', 'NotImplementedError'):
+                rep.violation('correspondence', 'loading a rule of fragmentation nature: model NotImplementedError (c12_fragmentation_from_json), implementation %s' % (o_,), dict(layer='json', op='fragmentation-load', json=txt))
         # a match mapping under another action than mapping-sent (its type must come from the JSON value, not from the action)
         f = rnd.choice(pd.fields)
         odd = gen_rfd(rnd, f, 'map')
